@@ -1,14 +1,19 @@
 // Package fx is a positive control for rule C14/R2 (never part of /repo):
-// every function but readonly writes package-level state.
+// every function but readonly and looked writes package-level state.
 package fx
+
+import "sync"
 
 var table = map[string]int{}
 var counter int
+var memo sync.Map
 
 func direct()      { table["x"] = 1 }
 func aliased()     { t := table; t["y"] = 2 }
 func deleted()     { delete(table, "x") }
 func incremented() { counter++ }
+func cached()      { memo.Store("k", 1) }
+func looked() bool { _, ok := memo.Load("k"); return ok }
 func readonly() int {
 	local := map[string]int{}
 	for k, v := range table {
